@@ -33,78 +33,116 @@ pub struct Guard {
 
 const CANARY: u8 = 0xC9;
 
-thread_local! {
-    /// (data_pages, at_end, base address): mappings are reused, mmap/munmap per call is expensive
-    static POOL: std::cell::RefCell<Vec<(usize, bool, usize)>> = std::cell::RefCell::new(Vec::new());
-}
+#[cfg(not(miri))]
+mod guard_impl {
+    use super::*;
+    thread_local! {
+        /// (data_pages, at_end, base address): mappings are reused, mmap/munmap per call is expensive
+        static POOL: std::cell::RefCell<Vec<(usize, bool, usize)>> = std::cell::RefCell::new(Vec::new());
+    }
 
-impl Guard {
-    pub fn new(len: usize, at_end: bool) -> Guard {
-        let data_pages = (len + PAGE - 1) / PAGE + 1;
-        let total = (data_pages + 1) * PAGE;
-        unsafe {
-            let reused = POOL.with(|p| {
-                let mut p = p.borrow_mut();
-                p.iter().position(|e| e.0 == data_pages && e.1 == at_end).map(|i| p.swap_remove(i).2)
-            });
-            let (guard_off, acc_start, ptr_off) = if at_end { (data_pages * PAGE, 0, data_pages * PAGE - len) } else { (0, PAGE, PAGE) };
-            let base = match reused {
-                Some(b) => b as *mut u8,
-                None => {
-                    let base = libc::mmap(std::ptr::null_mut(), total, libc::PROT_READ | libc::PROT_WRITE, libc::MAP_PRIVATE | libc::MAP_ANONYMOUS, -1, 0) as *mut u8;
-                    if base as isize == -1 {
-                        panic!("HARNESS: mmap failed");
+    impl Guard {
+        pub fn new(len: usize, at_end: bool) -> Guard {
+            let data_pages = (len + PAGE - 1) / PAGE + 1;
+            let total = (data_pages + 1) * PAGE;
+            unsafe {
+                let reused = POOL.with(|p| {
+                    let mut p = p.borrow_mut();
+                    p.iter().position(|e| e.0 == data_pages && e.1 == at_end).map(|i| p.swap_remove(i).2)
+                });
+                let (guard_off, acc_start, ptr_off) = if at_end { (data_pages * PAGE, 0, data_pages * PAGE - len) } else { (0, PAGE, PAGE) };
+                let base = match reused {
+                    Some(b) => b as *mut u8,
+                    None => {
+                        let base = libc::mmap(std::ptr::null_mut(), total, libc::PROT_READ | libc::PROT_WRITE, libc::MAP_PRIVATE | libc::MAP_ANONYMOUS, -1, 0) as *mut u8;
+                        if base as isize == -1 {
+                            panic!("HARNESS: mmap failed");
+                        }
+                        if libc::mprotect(base.add(guard_off) as *mut c_void, PAGE, libc::PROT_NONE) != 0 {
+                            panic!("HARNESS: mprotect failed");
+                        }
+                        base
                     }
-                    if libc::mprotect(base.add(guard_off) as *mut c_void, PAGE, libc::PROT_NONE) != 0 {
-                        panic!("HARNESS: mprotect failed");
+                };
+                std::ptr::write_bytes(base.add(acc_start), CANARY, data_pages * PAGE);
+                Guard { base, total, ptr: base.add(ptr_off), len, acc_start, acc_len: data_pages * PAGE }
+            }
+        }
+        pub fn with(data: &[u8], at_end: bool) -> Guard {
+            let g = Guard::new(data.len(), at_end);
+            unsafe { std::ptr::copy_nonoverlapping(data.as_ptr(), g.ptr, data.len()) };
+            g
+        }
+        pub fn bytes(&self) -> &[u8] {
+            unsafe { std::slice::from_raw_parts(self.ptr, self.len) }
+        }
+        /// every accessible byte outside [ptr, ptr+len) still holds the canary
+        pub fn canary_intact(&self) -> Option<usize> {
+            unsafe {
+                let acc = std::slice::from_raw_parts(self.base.add(self.acc_start), self.acc_len);
+                let lo = self.ptr as usize - (self.base as usize + self.acc_start);
+                for (i, &b) in acc.iter().enumerate() {
+                    if (i < lo || i >= lo + self.len) && b != CANARY {
+                        return Some(i);
                     }
-                    base
                 }
-            };
-            std::ptr::write_bytes(base.add(acc_start), CANARY, data_pages * PAGE);
-            Guard { base, total, ptr: base.add(ptr_off), len, acc_start, acc_len: data_pages * PAGE }
+            }
+            None
         }
     }
-    pub fn with(data: &[u8], at_end: bool) -> Guard {
-        let g = Guard::new(data.len(), at_end);
-        unsafe { std::ptr::copy_nonoverlapping(data.as_ptr(), g.ptr, data.len()) };
-        g
-    }
-    pub fn bytes(&self) -> &[u8] {
-        unsafe { std::slice::from_raw_parts(self.ptr, self.len) }
-    }
-    /// every accessible byte outside [ptr, ptr+len) still holds the canary
-    pub fn canary_intact(&self) -> Option<usize> {
-        unsafe {
-            let acc = std::slice::from_raw_parts(self.base.add(self.acc_start), self.acc_len);
-            let lo = self.ptr as usize - (self.base as usize + self.acc_start);
-            for (i, &b) in acc.iter().enumerate() {
-                if (i < lo || i >= lo + self.len) && b != CANARY {
-                    return Some(i);
+
+    impl Drop for Guard {
+        fn drop(&mut self) {
+            let data_pages = self.acc_len / PAGE;
+            let at_end = self.acc_start == 0;
+            let keep = data_pages <= 64
+                && POOL.with(|p| {
+                    let mut p = p.borrow_mut();
+                    if p.len() < 48 {
+                        p.push((data_pages, at_end, self.base as usize));
+                        true
+                    } else {
+                        false
+                    }
+                });
+            if !keep {
+                unsafe {
+                    libc::munmap(self.base as *mut c_void, self.total);
                 }
             }
         }
-        None
     }
+
 }
 
-impl Drop for Guard {
-    fn drop(&mut self) {
-        let data_pages = self.acc_len / PAGE;
-        let at_end = self.acc_start == 0;
-        let keep = data_pages <= 64
-            && POOL.with(|p| {
-                let mut p = p.borrow_mut();
-                if p.len() < 48 {
-                    p.push((data_pages, at_end, self.base as usize));
-                    true
-                } else {
-                    false
-                }
-            });
-        if !keep {
+/// Under Miri the buffers are exact-size heap allocations: Miri itself reports any access outside them
+/// (and provenance / aliasing violations that guard pages cannot see).
+#[cfg(miri)]
+mod guard_impl {
+    use super::*;
+    impl Guard {
+        pub fn new(len: usize, _at_end: bool) -> Guard {
+            let v = vec![CANARY; len.max(1)].into_boxed_slice();
+            let total = v.len();
+            let ptr = Box::into_raw(v) as *mut u8;
+            Guard { base: ptr, total, ptr, len, acc_start: 0, acc_len: 0 }
+        }
+        pub fn with(data: &[u8], at_end: bool) -> Guard {
+            let g = Guard::new(data.len(), at_end);
+            unsafe { std::ptr::copy_nonoverlapping(data.as_ptr(), g.ptr, data.len()) };
+            g
+        }
+        pub fn bytes(&self) -> &[u8] {
+            unsafe { std::slice::from_raw_parts(self.ptr, self.len) }
+        }
+        pub fn canary_intact(&self) -> Option<usize> {
+            None
+        }
+    }
+    impl Drop for Guard {
+        fn drop(&mut self) {
             unsafe {
-                libc::munmap(self.base as *mut c_void, self.total);
+                drop(Box::from_raw(std::slice::from_raw_parts_mut(self.base, self.total)));
             }
         }
     }
@@ -261,6 +299,16 @@ fn fam_deflate(s: &Script, st: &mut Stats) -> Result<RunInfo, Violation> {
                 break;
             }
         }
+        if cfg!(miri) {
+            // The shim builds &[u8] views of next_in/next_out in every entry point, also in *End, which
+            // never uses them. With the caller's buffers already freed that is a dangling reference for
+            // Miri although no byte is accessed (observation in DESIGN.md 12.4); the Miri complement is
+            // about accesses, so the pointers are cleared here.
+            strm.next_in = std::ptr::null();
+            strm.avail_in = 0;
+            strm.next_out = std::ptr::null_mut();
+            strm.avail_out = 0;
+        }
         let rc = c::mz_deflateEnd(&mut strm);
         if rc != 0 {
             return viol("C17.end_ok", format!("mz_deflateEnd = {}", rc));
@@ -385,6 +433,12 @@ fn fam_inflate(s: &Script, st: &mut Stats) -> Result<RunInfo, Violation> {
             if !ended || produced != v.out {
                 return viol("C03.valid_stream_finishes", format!("[mz_inflate] valid stream ended with rc {} after {} of {} bytes", last_rc, produced.len(), v.out.len()));
             }
+        }
+        if cfg!(miri) {
+            strm.next_in = std::ptr::null();
+            strm.avail_in = 0;
+            strm.next_out = std::ptr::null_mut();
+            strm.avail_out = 0;
         }
         let rc = c::mz_inflateEnd(&mut strm);
         if rc != 0 {
